@@ -7,6 +7,8 @@ From NV Require Import Gen.MetaConsts Meta.SMap Meta.SMapProofs Meta.Model Meta.
      Meta.WfProofs Meta.ListModel Meta.ListProofs.
 Local Open Scope N_scope.
 
+Ltac nlia := unfold cid, oid in *; lia.
+
 (* no stored object has the zero ID (the Go code reads a zero ID as "unset") *)
 Definition oids_pos_b (b : cstate) : Prop := forall o e, In (o, e) (objs b) -> o <> 0.
 Definition oids_pos (s : state) : Prop := forall c b, In (c, b) (cnrs s) -> oids_pos_b b.
@@ -40,13 +42,13 @@ Proof.
   apply flat_map_filter_nil.
   - intros [c b] _ H. simpl in *. apply N.leb_gt in H. rewrite filter_map_comm.
     rewrite filter_none; auto. intros it _. unfold after, item_addr. simpl.
-    replace (cc <? c) with false by (symmetry; apply N.ltb_ge; lia).
-    replace (cc =? c) with false by (symmetry; apply N.eqb_neq; lia). reflexivity.
+    replace (cc <? c) with false by (symmetry; apply N.ltb_ge; nlia).
+    replace (cc =? c) with false by (symmetry; apply N.eqb_neq; nlia). reflexivity.
   - intros [c b] _ H. simpl in *. apply N.leb_le in H. rewrite filter_map_comm. unfold bitems. simpl. f_equal.
     apply filter_ext. intros it. unfold after, item_addr, bsel. simpl.
     destruct (N.eqb_spec c cc) as [E|E].
     + subst. rewrite N.ltb_irrefl, N.eqb_refl. reflexivity.
-    + replace (cc <? c) with true by (symmetry; apply N.ltb_lt; lia). reflexivity.
+    + replace (cc <? c) with true by (symmetry; apply N.ltb_lt; nlia). reflexivity.
 Qed.
 
 (* one live bucket: the IDs the loop walks over and what it selects from them *)
@@ -68,13 +70,13 @@ Proof.
 Qed.
 
 Lemma firstn_app_le {A} n (l1 l2 : list A) : (n <= length l1)%nat -> firstn n (l1 ++ l2) = firstn n l1.
-Proof. intros H. rewrite firstn_app. replace (n - length l1)%nat with 0%nat by lia. simpl. now rewrite app_nil_r. Qed.
+Proof. intros H. rewrite firstn_app. replace (n - length l1)%nat with 0%nat by nlia. simpl. now rewrite app_nil_r. Qed.
 Lemma skipn_app_le {A} n (l1 l2 : list A) : (n <= length l1)%nat -> skipn n (l1 ++ l2) = skipn n l1 ++ l2.
-Proof. intros H. rewrite skipn_app. replace (n - length l1)%nat with 0%nat by lia. reflexivity. Qed.
+Proof. intros H. rewrite skipn_app. replace (n - length l1)%nat with 0%nat by nlia. reflexivity. Qed.
 Lemma firstn_app_gt {A} n (l1 l2 : list A) : (length l1 <= n)%nat -> firstn n (l1 ++ l2) = l1 ++ firstn (n - length l1) l2.
-Proof. intros H. rewrite firstn_app. now rewrite firstn_all2 by lia. Qed.
+Proof. intros H. rewrite firstn_app. now rewrite firstn_all2 by nlia. Qed.
 Lemma skipn_app_gt {A} n (l1 l2 : list A) : (length l1 <= n)%nat -> skipn n (l1 ++ l2) = skipn (n - length l1) l2.
-Proof. intros H. rewrite skipn_app. now rewrite skipn_all2 by lia. Qed.
+Proof. intros H. rewrite skipn_app. now rewrite skipn_all2 by nlia. Qed.
 
 (* items of a bucket after a non-zero ID [l] that is not below the start [o0] *)
 Lemma bitems_after_last c b cc co l ids0 :
@@ -97,7 +99,7 @@ Proof.
     apply filter_In in Hl as [_ Hl]. apply N.ltb_lt in Hl.
     induction (listed_in b) as [|it r IH]; simpl; auto.
     destruct (l <? fst it) eqn:E1; simpl.
-    + replace (o0 <? fst it) with true by (symmetry; apply N.ltb_lt; apply N.ltb_lt in E1; lia). simpl. rewrite E1. now f_equal.
+    + replace (o0 <? fst it) with true by (symmetry; apply N.ltb_lt; apply N.ltb_lt in E1; nlia). simpl. rewrite E1. now f_equal.
     + destruct (o0 <? fst it); simpl; auto. now rewrite E1.
 Qed.
 
@@ -120,16 +122,16 @@ Proof.
     assert (Hgt : forall kv, In kv rest -> c < fst kv).
     { intros kv Hkv. apply Fc. apply in_map_iff. eauto. }
     assert (Hcc : cc <= c) by (apply (GE (c, b)); now left).
-    assert (Hne_cc : forall kv, In kv rest -> fst kv <> cc) by (intros kv Hkv; apply Hgt in Hkv; lia).
-    assert (Hne_c : forall kv, In kv rest -> fst kv <> c) by (intros kv Hkv; apply Hgt in Hkv; lia).
+    assert (Hne_cc : forall kv, In kv rest -> fst kv <> cc) by (intros kv Hkv; apply Hgt in Hkv; nlia).
+    assert (Hne_c : forall kv, In kv rest -> fst kv <> c) by (intros kv Hkv; apply Hgt in Hkv; nlia).
     assert (WFr : forall kv, In kv rest -> wfc (snd kv)) by (intros; apply WF; now right).
     assert (POSr : forall kv, In kv rest -> oids_pos_b (snd kv)) by (intros; apply POS; now right).
-    assert (GEr : forall kv, In kv rest -> c <= fst kv) by (intros kv Hkv; apply Hgt in Hkv; lia).
+    assert (GEr : forall kv, In kv rest -> c <= fst kv) by (intros kv Hkv; apply Hgt in Hkv; nlia).
     assert (Wb : wfc b) by (apply (WF (c, b)); now left).
     assert (Pb : oids_pos_b b) by (apply (POS (c, b)); now left).
     assert (Hkeep : forall c', In c' (map fst rest) ->
-              filter (fun kv : cid * cstate => c' <=? fst kv) ((c, b) :: rest) = filter (fun kv => c' <=? fst kv) rest).
-    { intros c' Hc'. simpl. apply Fc in Hc'. replace (c' <=? c) with false by (symmetry; apply N.leb_gt; lia). reflexivity. }
+              filter (fun kv => c' <=? fst kv) ((c, b) :: rest) = filter (fun kv => c' <=? fst kv) rest).
+    { intros c' Hc'. simpl. apply Fc in Hc'. replace (c' <=? c) with false by (symmetry; apply N.leb_gt; nlia). reflexivity. }
     simpl list_buckets. set (o0 := if c =? cc then co else 0).
     destruct (cgc b) eqn:C.
     + (* removed container: contributes nothing, the cursor moves onto it *)
@@ -137,28 +139,29 @@ Proof.
       { intros. unfold X. simpl. now rewrite bitems_cgc. }
       rewrite EX. rewrite (X_other rest cc co c o0) by auto.
       destruct room as [|room].
-      * simpl. rewrite app_nil_r. repeat split; auto. lia.
+      * simpl. rewrite app_nil_r. repeat split; auto. nlia.
       * specialize (IH c SSr WFr POSr GEr (S room) o0 acc). cbv zeta in IH.
         destruct (list_buckets rest (S room) c o0 acc) as [res [c' o']] eqn:ER. simpl in *.
         destruct IH as [I1 [I2 I3]]. repeat split; auto.
-        -- intros _. rewrite <- I2 by lia.
+        -- intros _. rewrite <- I2 by nlia.
            destruct I3 as [[Er Ecur]|Hin].
            ++ subst rest. inversion Ecur; subst. simpl. rewrite N.leb_refl. unfold X. simpl. now rewrite bitems_cgc.
            ++ now rewrite Hkeep.
-        -- destruct I3 as [[Er Ecur]|Hin]; [inversion Ecur; subst; now left|now right].
+        -- destruct I3 as [[Er Ecur]|Hin]; [inversion Ecur; subst; right; now left|right; now right].
     + (* live bucket *)
       set (ids := if o0 =? 0 then ids_where e_phy b else filter (fun id => o0 <? id) (ids_where e_phy b)).
       destruct (bucket_good c b cc co Wb C) as [SSi EG]. fold o0 in SSi, EG. fold ids in SSi, EG.
-      destruct (select_n b ids room o0 []) as [[items lst] room'] eqn:ES.
+      destruct (select_n b ids room o0 []) as [[items lst] room'] eqn:ES. cbv beta iota zeta.
       pose proof (select_n_spec b ids room o0 []) as [S1 S2]. rewrite ES in S1, S2. simpl in S1, S2.
       set (G := good b ids) in *.
       assert (EX : X ((c, b) :: rest) cc co = map (fun it : oid * otype => (c, fst it, snd it)) G ++ X rest c lst).
       { unfold X at 1. simpl. fold (X rest cc co). rewrite <- EG. f_equal. now apply X_other. }
       rewrite EX. set (MG := map (fun it : oid * otype => (c, fst it, snd it)) G) in *.
       assert (LMG : length MG = length G) by (unfold MG; now rewrite map_length).
-      assert (Eit : map (fun it : oid * otype => (c, fst it, snd it)) items = firstn room MG).
-      { subst items. unfold MG. now rewrite firstn_map. }
-      rewrite Eit.
+      set (MI := map _ items).
+      assert (Eit : MI = firstn room MG).
+      { subst MI items. unfold MG. now rewrite firstn_map. }
+      clearbody MI. subst MI.
       (* what remains of this bucket after lst *)
       assert (Hrem : (1 <= room)%nat -> ids <> [] -> bitems c lst (c, b) = skipn room MG).
       { intros Hr Hne. pose proof (select_n_last_in1 b ids room o0 [] Hne Hr) as Hin. rewrite ES in Hin. simpl in Hin.
@@ -169,30 +172,30 @@ Proof.
       { intros E. rewrite E in ES. simpl in ES. inversion ES; subst. split; auto. unfold MG, G. now rewrite E. }
       destruct room' as [|room'].
       * (* page filled inside this bucket *)
-        simpl. assert (Hlen : (room <= length MG)%nat) by lia.
+        simpl. assert (Hlen : (room <= length MG)%nat) by nlia.
         rewrite firstn_app_le by auto. repeat split; auto.
         intros Hr. rewrite N.leb_refl. unfold X at 1. simpl.
-        assert (Ef : filter (fun kv : cid * cstate => c <=? fst kv) rest = rest).
-        { apply filter_all. intros kv Hkv. apply N.leb_le. apply Hgt in Hkv. lia. }
+        assert (Ef : filter (fun kv => c <=? fst kv) rest = rest).
+        { apply filter_all. intros kv Hkv. apply N.leb_le. apply Hgt in Hkv. nlia. }
         rewrite Ef. fold (X rest c lst). rewrite skipn_app_le by auto. f_equal.
         destruct ids as [|i0 ir] eqn:Ei.
-        -- destruct (Hrem0 eq_refl) as [_ E]. rewrite E in *. simpl in Hlen. lia.
+        -- destruct (Hrem0 eq_refl) as [_ E]. rewrite E in *. simpl in Hlen. nlia.
         -- apply Hrem; auto. congruence.
       * (* bucket exhausted, go on with the next one *)
-        assert (Hlen : (length MG < room)%nat) by lia.
+        assert (Hlen : (length MG < room)%nat) by nlia.
         specialize (IH c SSr WFr POSr GEr (S room') lst (acc ++ firstn room MG)). cbv zeta in IH.
-        destruct (list_buckets rest (S room') c lst (acc ++ firstn room MG)) as [res [c' o']] eqn:ER. simpl in *.
+        destruct (list_buckets rest (S room') c lst (acc ++ firstn room MG)) as [res [c' o']] eqn:ER. simpl fst in *; simpl snd in *.
         destruct IH as [I1 [I2 I3]].
-        rewrite firstn_all2 in I1 by lia.
+        rewrite firstn_all2 in I1 by nlia.
         repeat split.
-        -- rewrite I1. rewrite firstn_app_gt by lia. rewrite <- app_assoc. do 3 f_equal. lia.
-        -- intros Hr. rewrite skipn_app_gt by lia. replace (room - length MG)%nat with (S room') by lia.
-           rewrite <- I2 by lia.
+        -- rewrite I1. Show. rewrite firstn_app_gt by nlia. rewrite <- app_assoc. do 3 f_equal. nlia.
+        -- intros Hr. rewrite skipn_app_gt by nlia. replace (room - length MG)%nat with (S room') by nlia.
+           rewrite <- I2 by nlia.
            destruct I3 as [[Er Ecur]|Hin].
            ++ subst rest. inversion Ecur; subst. simpl. rewrite N.leb_refl. unfold X. simpl. rewrite app_nil_r.
               destruct ids as [|i0 ir] eqn:Ei.
               ** destruct (Hrem0 eq_refl) as [El E]. subst lst. rewrite <- EG. fold G. fold MG. exact E.
-              ** rewrite Hrem; auto; [|congruence]. apply skipn_all2. lia.
+              ** rewrite Hrem; auto; [|congruence]. apply skipn_all2. nlia.
            ++ now rewrite Hkeep.
-        -- destruct I3 as [[Er Ecur]|Hin]; [inversion Ecur; subst; now left|now right].
+        -- destruct I3 as [[Er Ecur]|Hin]; [inversion Ecur; subst; right; now left|right; now right].
 Qed.
